@@ -156,6 +156,8 @@ func pipelineJSONErrorClass(msg string) string {
 		return "sample-panic"
 	case reUnknownFn.MatchString(msg):
 		return "unknown-node-kind/" + reUnknownFn.FindStringSubmatch(msg)[1]
+	case strings.Contains(msg, "field args is not a list"):
+		return "function-without-arguments"
 	case reNotChain.MatchString(msg):
 		return "not-a-chain-node/" + reNotChain.FindStringSubmatch(msg)[1]
 	}
